@@ -17,14 +17,16 @@ import (
 	"github.com/go-i2p/common/lease_set2"
 	"github.com/go-i2p/common/meta_leaseset"
 	"github.com/go-i2p/common/offline_signature"
+	"github.com/go-i2p/common/router_info"
 	"pgregory.net/rapid"
 
 	"verif/internal/ev"
 	"verif/internal/gen"
+	"verif/internal/libbuild"
 	"verif/internal/model"
 )
 
-const rule = "cases: (published, offset) over boundaries {0,1,2^31-1,2^31,2^32-1} x {0,1,65535} (all 15 pairs every run) and uniform u32 x u16, carried by LeaseSet2, MetaLeaseSet and EncryptedLeaseSet encodings, half of them with an offline block whose transient key expires before, at or after the structure does; Lease end dates (ms) below 2^63 incl. 9223372036854/5 (the UnixNano limit); Lease2 seconds over u32 and constructor times outside [0,2^32-1] (negative, 2^32, year 2262+, sub-second fractions, +-2^k +- delta up to the int64 limits, and second counts whose product with 10^3, 10^6 or 10^9 wraps modulo 2^64 into the 32-bit range); offline expiry u32; LeaseSets of 1..16 leases with arbitrary, repeated and boundary dates in random order; expiry one day before / after the start of the run for seven structure kinds, and any absolute 32-bit expiry at least a day away from now (uniform, and the landmarks 2^31, 2^32-1, now +- 2^31). Times handed to constructors are expressed in UTC and three other locations. Oracle: math/big - ExpirationTime().Unix() = published+offset (up to 2^32+65534, no wrap), exact second<->millisecond conversions (Lease / Date accessors, NewLease, DateFromTime, NewDateFromMillis, NewDateFromUnix over the whole range below 2^63 ms), NewLease2 rejects out-of-range instead of wrapping, Newest/OldestExpiration are members of the leases and bound all others, IsExpired true at now-86400 s and false at now+86400 s. Non-trivial: published+offset crosses 2^31 or 2^32, a date beyond 2^31 s, or a lease set with >= 2 distinct dates; distinct by field values."
+const rule = "cases: (published, offset) over boundaries {0,1,2^31-1,2^31,2^32-1} x {0,1,65535} (all 15 pairs every run) and uniform u32 x u16, carried by LeaseSet2, MetaLeaseSet and EncryptedLeaseSet encodings, half of them with an offline block whose transient key expires before, at or after the structure does; Lease end dates (ms) below 2^63 incl. 9223372036854/5 (the UnixNano limit); Lease2 seconds over u32 and constructor times outside [0,2^32-1] (negative, 2^32, year 2262+, sub-second fractions, +-2^k +- delta up to the int64 limits, and second counts whose product with 10^3, 10^6 or 10^9 wraps modulo 2^64 into the 32-bit range); offline expiry u32; LeaseSets of 1..16 leases with arbitrary, repeated and boundary dates in random order; expiry one day before / after the start of the run for seven structure kinds, and any absolute 32-bit expiry at least a day away from now (uniform, and the landmarks 2^31, 2^32-1, now +- 2^31). Times handed to constructors are expressed in UTC and three other locations. Oracle: math/big - ExpirationTime().Unix() = published+offset (up to 2^32+65534, no wrap), exact second<->millisecond conversions (Lease / Date accessors, NewLease, DateFromTime, NewDateFromMillis, NewDateFromUnix, the published date of NewRouterInfo, over the whole range below 2^63 ms), NewLease2 rejects out-of-range instead of wrapping, Newest/OldestExpiration are members of the leases and bound all others, IsExpired true at now-86400 s and false at now+86400 s. Non-trivial: published+offset crosses 2^31 or 2^32, a date beyond 2^31 s, or a lease set with >= 2 distinct dates; distinct by field values."
 
 var now time.Time
 
@@ -41,9 +43,9 @@ type Case struct {
 	Secs      int64    `json:"secs,omitempty"`
 	Nanos     int64    `json:"nanos,omitempty"`
 	Dates     []uint64 `json:"dates,omitempty"`
-	Delta     int64    `json:"delta,omitempty"` // expired: seconds relative to the start of the run
+	Delta     int64    `json:"delta,omitempty"`           // expired: seconds relative to the start of the run
 	Off       uint32   `json:"offline_expires,omitempty"` // header: the structures carry an offline block whose transient key expires then (0: no block)
-	At        uint32   `json:"at,omitempty"`    // expired: absolute expiry (seconds) instead of Delta; skipped when within a day of now
+	At        uint32   `json:"at,omitempty"`              // expired: absolute expiry (seconds) instead of Delta; skipped when within a day of now
 }
 
 func headerBytes(kind string, published uint32, offset uint16, off ...uint32) []byte {
@@ -182,6 +184,27 @@ func checkLease(c Case, r *ev.Rec) error {
 		}
 		if got := dm.Time().UnixMilli(); got != int64(c.Ms) {
 			return fmt.Errorf("NewDateFromMillis(%d).Time().UnixMilli() = %d", c.Ms, got)
+		}
+		// the published date of a RouterInfo is such a millisecond date: NewRouterInfo stores
+		// the instant it is given, to the millisecond (one case in eight; signing costs)
+		if c.Ms%8 == 3 && c.Ms > 0 {
+			b, err := libbuild.RouterInfo(gen.RouterInfoSpec{Ident: gen.IdentSpec{SigType: 7, EncType: 4, KeySeed: 3, PadSeed: 4}, Published: c.Ms,
+				Addrs: []gen.AddrSpec{{Cost: 1, Style: "4e54435032", Options: gen.Pairs{{"686f7374", "312e322e332e34"}}}}})
+			if err != nil {
+				return fmt.Errorf("NewRouterInfo(published %d ms): %v", c.Ms, err)
+			}
+			mri, _, err := model.DecodeRouterInfo(b)
+			if err != nil || mri.Published != c.Ms {
+				return fmt.Errorf("NewRouterInfo(published %d ms) stores %d ms (%v)", c.Ms, mri.Published, err)
+			}
+			back, _, err := router_info.ReadRouterInfo(b)
+			if err != nil {
+				return fmt.Errorf("ReadRouterInfo(NewRouterInfo(...)): %v", err)
+			}
+			if got := back.Published(); got == nil || got.Time().UnixMilli() != int64(c.Ms) {
+				return fmt.Errorf("RouterInfo.Published() after the wire is not %d ms", c.Ms)
+			}
+			r.Class("routerinfo-published")
 		}
 	}
 	if c.Ms >= 1<<31*1000 {
